@@ -86,7 +86,7 @@ prop('C08', COMMON +
      'precedence decider; the plain printer may take a left operand only behind an equal-precedence test and a right operand '
      'only behind same-operator + associative-operator tests (reported as the known regrouping finding). TYPE-WALKER: the '
      'annotation printer visits every child position. Does not decide layout.',
-     [printer_rules.run_prec_iso, printer_rules.run_literal_parity, printer_rules.run_paren_assoc, printer_rules.run_paren_sink, printer_rules.run_pattern_parens, shape.run_literal_source, parser_progress.run_list_end_token, type_walker.make(('samlang_printer',), 1), TI.make(['T-prt'])])
+     [printer_rules.run_prec_iso, printer_rules.run_literal_parity, printer_rules.run_paren_assoc, printer_rules.run_paren_sink, printer_rules.run_paren_unary_level, printer_rules.run_pattern_parens, shape.run_literal_source, parser_progress.run_list_end_token, type_walker.make(('samlang_printer',), 1), TI.make(['T-prt'])])
 
 prop('C09', COMMON +
      'Clause "every comment is kept". COMMENT-LINEAR: linear-resource typestate dataflow over the parser MIR (Vec<Comment> '
